@@ -283,6 +283,7 @@ def main(tier: str) -> int:
         saved_pb = SHM.current_to_pbest_1_archive_p_min
         stale = []
         pool_bad = []
+        roles_bad = []
 
         def wpb(ind, popg, pbest, F, arch, _o=saved_pb, _oo=o, _pop=pop):
             # the pool "population U archive" handed to the strategy holds only current members and archive members
@@ -293,6 +294,13 @@ def main(tier: str) -> int:
                     if tuple(row) not in cur and tuple(row) not in arc:
                         pool_bad.append({"generation": len(_oo.get_stats()["fitness"]) + 1, "row_of_the_pool": ri, "vector": row})
                         break
+            # ... and the strategy's roles: its population argument is the CURRENT population (the added vector x_r1 is a population
+            # member), its pool argument is population followed by archive (only the subtracted x_r2 may be an archive member)
+            if not roles_bad:
+                curm = np.asarray(_oo._population_g_i, dtype=np.float64)
+                if not np.array_equal(np.asarray(popg, dtype=np.float64), curm) or len(arch) < len(curm) or not np.array_equal(np.asarray(arch, dtype=np.float64)[: len(curm)], curm):
+                    roles_bad.append({"generation": len(_oo.get_stats()["fitness"]) + 1, "rows_of_the_population_argument": int(len(popg)), "rows_of_the_pool_argument": int(len(arch)),
+                                      "current_population_rows": int(len(curm))})
             k = max(1, int(0.05 * _pop))
             fitn = np.asarray(_oo._fitness_i, dtype=np.float64)
             kth = np.sort(fitn)[-k]
@@ -311,6 +319,9 @@ def main(tier: str) -> int:
         if pool_bad:
             chk.fail("the pool handed to SHADE's strategy contains a vector that is neither a member of the current population nor of the archive",
                      {"optimizer": "SHADE", "pop_size": pop, "objective": "rastrigin", "elitism": True, **pool_bad[0]}, {"fn": "SHADE", "clause": "pool"})
+        if roles_bad:
+            chk.fail("a SHADE donor is not the strategy's combination: the added vector must be a population member, only the subtracted one may come from the archive",
+                     {"optimizer": "SHADE", "pop_size": pop, "objective": "rastrigin", **roles_bad[0]}, {"fn": "SHADE", "clause": "roles"})
         if stale:
             chk.fail("a SHADE donor is built from a member that is not among the p-best of the current population",
                      {"optimizer": "SHADE", "pop_size": pop, "objective": "rastrigin", **stale[0]}, {"fn": "SHADE", "clause": "pbest_current"})
